@@ -53,8 +53,8 @@ func spaces(res *vk.Result, all bool) []*opseq.Space {
 		if all || vk.Thorough() {
 			u2 := universe2()
 			d2 := 2
-			if all || map[string]bool{"memory+kv": true, "localdisk+sqlite": true, "diskpacked+leveldb": true, "blobpacked+memory": true}[c.Name()] {
-				d2 = 3 // second universe: depth 3 on one cell per storage type, depth 2 elsewhere
+			if all || map[string]bool{"diskpacked+leveldb": true, "blobpacked+memory": true}[c.Name()] {
+				d2 = 3 // second universe: depth 3 on one cell of each packed storage type, depth 2 elsewhere
 			}
 			out = append(out, &opseq.Space{
 				Name: c.Name() + "/u2", Ops: Ops(u2), Depth: d2, SigPrefix: "C18|" + c.Name(), WorkBase: i*5 + 3,
